@@ -97,7 +97,7 @@ def run(ctx):
     d = m.method('_process_destroy')
     g = CFG(d)
     dels = [n for n in g.nodes for c in calls_at(n) if isinstance(c.func, ast.Attribute) and c.func.attr == 'delete']
-    coms = [n for n, c in call_nodes(g, 'self._data_session.commit')]
+    coms = m.commit_nodes(g)
     dsite = m.site(d, d)
     ctx.check(len(dels) == 1 and g.all_paths_pass(g.entry, g.exit, dels), 'C07.R3', 'KmipEngine._process_destroy|delete-on-every-path', dsite,
               'every normal return passes the row delete', 'Destroy can return normally without deleting the row')
@@ -112,12 +112,13 @@ def run(ctx):
     n_reads = 0
     for h in m.handlers:
         fn = m.method(h)
-        adds = [c for c in walk_local(fn) if isinstance(c, ast.Call) and dotted(c.func) == 'self._data_session.add']
-        if not adds:
-            continue
         hg = CFG(fn)
+        fresh_vars = set(n.stmt.targets[0].id for n in hg.nodes if n.kind == 'stmt' and isinstance(n.stmt, ast.Assign) and isinstance(n.stmt.targets[0], ast.Name)
+                         and isinstance(n.stmt.value, ast.Call) and ((call_name(n.stmt.value) or '').startswith('objects.') or (isinstance(n.stmt.value.func, ast.Attribute) and n.stmt.value.func.attr == 'convert')))
+        if not any(m.add_nodes(hg, v) for v in fresh_vars):
+            continue
         hrd = ReachingDefs(hg)
-        commits = [n for n, c in call_nodes(hg, 'self._data_session.commit')]
+        commits = m.commit_nodes(hg)
         for n in walk_local(fn):
             if isinstance(n, ast.Attribute) and n.attr == 'unique_identifier' and isinstance(n.ctx, ast.Load) and isinstance(n.value, ast.Name):
                 node = node_of_expr(hg, n)
@@ -126,11 +127,11 @@ def run(ctx):
                 if not fresh:
                     continue
                 n_reads += 1
-                addn = [node_of_expr(hg, c) for c in adds if c.args and isinstance(c.args[0], ast.Name) and c.args[0].id == n.value.id]
-                ok = bool(addn) and any(hg.dominates(a, cn) and hg.dominates(cn, node) for a in addn for cn in commits)
+                addn = m.add_nodes(hg, n.value.id)
+                ok = bool(addn) and any((hg.dominates(a, cn) or a is cn) and hg.dominates(cn, node) for a in addn for cn in commits)
                 ctx.check(ok, 'C07.R4', 'KmipEngine.%s|%s.unique_identifier-after-commit' % (h, n.value.id), m.site(n, fn),
                           'identifier of the new object read after add() and commit()', 'the identifier of a new object is read before it was added and committed (it is None or provisional then)')
-    ctx.count('new_identifier_reads', n_reads, 10)
+    ctx.count('new_identifier_reads', n_reads)
     # ---------------- R5
     got = m.method('_get_object_type')
     gg = CFG(got)
